@@ -37,19 +37,19 @@ type Violation struct {
 }
 
 type Result struct {
-	Index        int            `json:"index"`
-	Name         string         `json:"name"`
-	Hash         string         `json:"hash"`
-	Evals        int            `json:"evals"` // library calls observed
-	Nontrivial   bool           `json:"nontrivial"`
-	Tags         []string       `json:"tags,omitempty"`
-	Cells        []string       `json:"cells,omitempty"` // feature cells observed by the oracle (not planned by the generator)
-	Events       map[string]int `json:"events,omitempty"`
+	Index        int                 `json:"index"`
+	Name         string              `json:"name"`
+	Hash         string              `json:"hash"`
+	Evals        int                 `json:"evals"` // library calls observed
+	Nontrivial   bool                `json:"nontrivial"`
+	Tags         []string            `json:"tags,omitempty"`
+	Cells        []string            `json:"cells,omitempty"` // feature cells observed by the oracle (not planned by the generator)
+	Events       map[string]int      `json:"events,omitempty"`
 	Sets         map[string][]string `json:"sets,omitempty"` // named sets of distinct things seen (merged by union)
-	Violations   []Violation    `json:"violations,omitempty"`
-	Inconclusive []string       `json:"inconclusive,omitempty"`
-	Skipped      string         `json:"skipped,omitempty"`
-	CPUms        int64          `json:"cpu_ms"`
+	Violations   []Violation         `json:"violations,omitempty"`
+	Inconclusive []string            `json:"inconclusive,omitempty"`
+	Skipped      string              `json:"skipped,omitempty"`
+	CPUms        int64               `json:"cpu_ms"`
 }
 
 func (r *Result) Ev(k string, n int) {
@@ -98,12 +98,12 @@ func (r *Result) Violate(kind, sig, opt, detail string) {
 
 // Info describes a check for the evidence file.
 type Info struct {
-	Level       string   // exploration | fault_enumeration
-	Rule        string   // how cases are generated and what counts as non-trivial
-	Assumptions []string // trusted base
-	MaxEventKeys []string // event keys merged by max instead of sum
-	AllCells    []string // the full feature matrix (for hit/total reporting); may be nil
-	MinSuccessPct int    // if >0: Events["ok_calls"]*100/Events["calls"] below this => inconclusive
+	Level         string   // exploration | fault_enumeration
+	Rule          string   // how cases are generated and what counts as non-trivial
+	Assumptions   []string // trusted base
+	MaxEventKeys  []string // event keys merged by max instead of sum
+	AllCells      []string // the full feature matrix (for hit/total reporting); may be nil
+	MinSuccessPct int      // if >0: Events["ok_calls"]*100/Events["calls"] below this => inconclusive
 }
 
 // Engine generates and checks cases for the properties it serves.
@@ -114,7 +114,7 @@ type Engine interface {
 	Info(prop, tier string) Info
 }
 
-var engines = map[string]Engine{}   // by engine name
+var engines = map[string]Engine{}    // by engine name
 var propEngine = map[string]string{} // property -> engine name
 
 func Register(name string, e Engine, props ...string) {
